@@ -7,12 +7,14 @@ import (
 	"flag"
 	"fmt"
 	"os"
+	"os/signal"
 	"path/filepath"
 	"regexp"
 	"runtime"
 	"sort"
 	"strings"
 	"sync"
+	"syscall"
 	"time"
 
 	"golang.org/x/tools/go/packages"
@@ -246,7 +248,24 @@ func runProperty(cfg *Config) int {
 		return 2
 	}
 	workRoot := filepath.Join(cfg.verif, ".work", fmt.Sprintf("%s-%d", cfg.prop, os.Getpid()))
+	// scratch of earlier runs that were killed: remove when the owning process is gone
+	if ents, err := os.ReadDir(filepath.Join(cfg.verif, ".work")); err == nil {
+		for _, en := range ents {
+			if i := strings.LastIndex(en.Name(), "-"); i > 0 {
+				if _, err := os.Stat("/proc/" + en.Name()[i+1:]); err != nil {
+					os.RemoveAll(filepath.Join(cfg.verif, ".work", en.Name()))
+				}
+			}
+		}
+	}
 	os.MkdirAll(workRoot, 0o755)
+	sigc := make(chan os.Signal, 1)
+	signal.Notify(sigc, syscall.SIGINT, syscall.SIGTERM)
+	go func() {
+		<-sigc
+		os.RemoveAll(workRoot)
+		os.Exit(3)
+	}()
 	results := make([]*HarnessResult, len(jobs))
 	ncpu := runtime.NumCPU()
 	if cfg.jobs == 0 {
@@ -310,7 +329,7 @@ func runHarness(cfg *Config, prog *ssa.Program, pkg *ssa.Package, name string, v
 	sh := &Shared{prog: prog, pool: pool, harness: name, tier: cfg.tier, seed: cfg.seed, trace: cfg.trace, vpModel: vpModel,
 		globals: map[*ssa.Global]Val{}, lazyMemo: map[string]StoreEntry{}, globalHeap: map[int]Val{}, strIntern: map[string]int{}, seen: map[string]bool{},
 		unwind: 24, sliceL: 2, maxSteps: 20000000, maxPaths: cfg.maxPaths, reachWanted: map[string]int{}, reachSat: map[string]bool{},
-		boundsUsed: map[string]int{}, optionsUsed: map[string]bool{}, notes: map[string]bool{}, stubs: map[string]bool{}}
+		boundsUsed: map[string]int{}, optionsUsed: map[string]bool{}, notes: map[string]bool{}, stubs: map[string]bool{}, stubMono: map[string][2]int{}}
 	sh.decls = append(sh.decls, prelude...)
 	sh.noRegion = os.Getenv("VP_NO_REGION") != ""
 	pool.onDone = func(q *FinalQuery) {
